@@ -225,7 +225,9 @@ func c05Hellos() *explore.Scenario {
 			}
 			h, err := wire.ParseClientHello(msg)
 			if err != nil {
-				r.Obs = "unparsable" // C02's business
+				// a padded parrot's hello that does not even parse: the padding extension's own length
+				// prefix is the first suspect (C02 judges syntax in general; here it is the subject)
+				r.Violate("C05|hello|unparsable|"+truncStr(errClass(err), 60), "%s: the hello does not parse: %v", what, err)
 				return
 			}
 			u := paddingOracle(&r, fmt.Sprintf("hello|variant%d", variant), what, h)
@@ -268,7 +270,7 @@ func c05Fingerprint() *explore.Scenario {
 			}
 			h, err := wire.ParseClientHello(msg)
 			if err != nil {
-				r.Obs = "unparsable"
+				r.Violate("C05|fingerprint|capture-unparsable|"+truncStr(errClass(err), 60), "%s sni-len=%d: the padded parrot's hello does not parse: %v", n.Name, sniLen, err)
 				return
 			}
 			pad := h.Find(21)
@@ -309,6 +311,9 @@ func c05Fingerprint() *explore.Scenario {
 				r.Violate("C05|fingerprint|length", "%s sni-len=%d flags=%d: captured hello %d bytes (padding %d), rebuilt %d bytes", n.Name, sniLen, flags, len(msg), len(pad.Body), len(msg2))
 			}
 			h2, err := wire.ParseClientHello(msg2)
+			if err != nil {
+				r.Violate("C05|fingerprint|rebuilt-unparsable|"+truncStr(errClass(err), 60), "%s sni-len=%d flags=%d: the hello rebuilt from the fingerprint does not parse: %v", n.Name, sniLen, flags, err)
+			}
 			if err == nil {
 				np := 0
 				for _, e := range h2.Exts {
